@@ -6,21 +6,76 @@ thread's evolution inside an arbitrary interleaving.
 -/
 namespace Risor.C06
 
+/-! ### leaving a frame (deferred calls, return to the caller) -/
+
+theorem size_pos (p : Prog) : 2 ≤ size p := by
+  induction p <;> simp only [size] <;> omega
+
+theorem returnT_flags (t : Thread) (w : Wrap) (k : Prog) (fs : List Frame) (o : Option Err) :
+    (returnT t w k fs o).halt = t.halt ∧ (returnT t w k fs o).armed = t.armed ∧
+    (returnT t w k fs o).id = t.id := by
+  unfold returnT
+  split
+  · split <;> simp
+  · split
+    · simp
+    · split <;> simp
+
+/-- leaving a frame — starting its next deferred call or returning to the caller — never
+    touches the flag, the watcher or the thread id -/
+theorem leaveT_flags (t : Thread) (o : Option Err) :
+    (leaveT t o).halt = t.halt ∧ (leaveT t o).armed = t.armed ∧ (leaveT t o).id = t.id := by
+  unfold leaveT
+  split
+  · simp
+  · simp
+  · exact returnT_flags t _ _ _ o
+
+theorem registerT_flags (t : Thread) (d k : Prog) :
+    (registerT t d k).halt = t.halt ∧ (registerT t d k).armed = t.armed ∧
+    (registerT t d k).id = t.id := by
+  unfold registerT
+  split <;> simp
+
+theorem returnT_pot (t : Thread) (w : Wrap) (k : Prog) (fs : List Frame) (o : Option Err) :
+    potT (returnT t w k fs o) ≤ size k + potFrames fs := by
+  have := size_pos k
+  unfold returnT
+  split
+  · split <;> simp [potT, potSt] <;> omega
+  · split
+    · simp [potT, potSt]
+    · split <;> simp [potT, potSt] <;> omega
+
+/-- whatever leaving the top frame leads to — the next deferred closure of the frame (with all
+    its code still to run), the rest of the deferred calls, the caller —, it is paid for by
+    the potential of the frames: the deferred closures are counted in `potFrames` -/
+theorem leaveT_pot (t : Thread) (o : Option Err) : potT (leaveT t o) ≤ potFrames t.frames := by
+  unfold leaveT
+  split
+  · rename_i h; simp [potT, potSt, h, potFrames]
+  · rename_i w k d ds fs h
+    simp [potT, potSt, h, potFrames, potDefers, size]; omega
+  · rename_i w k fs h
+    have := returnT_pot t w k fs o
+    simp [h, potFrames, potDefers]; omega
+
 /-! ### the halted branch of a poll -/
 
 /-- the three things a raised flag can do to a thread, whatever context its `eval` was
     handed: raise the context's error, raise the pop panic, or abandon the callback frame
-    and return to its builtin; `halt`, `armed`, `id` are never touched -/
+    (it is left as if it had returned: its deferred calls, then its builtin); `halt`,
+    `armed`, `id` are never touched -/
 theorem haltedT_cases (t : Thread) :
     haltedT t = { t with st := .raising .ctx } ∨ haltedT t = { t with st := .raising .panic } ∨
-    ∃ w k fs, t.frames = (w, k) :: fs ∧ haltedT t = { t with st := .run k, frames := fs } := by
+    (t.frames ≠ [] ∧ haltedT t = leaveT t none) := by
   unfold haltedT
   split
   · exact Or.inl rfl
   · exact Or.inr (Or.inl rfl)
-  · split
-    · exact Or.inl rfl
-    · rename_i w k fs h; exact Or.inr (Or.inr ⟨w, k, fs, h, rfl⟩)
+  · rename_i h
+    refine Or.inr (Or.inr ⟨?_, rfl⟩)
+    intro hf; rw [hf] at h; simp [detachedBy] at h
 
 theorem haltedT_of_none (t : Thread) (h : detachedBy t.frames = none) :
     haltedT t = { t with st := .raising .ctx } := by
@@ -28,7 +83,10 @@ theorem haltedT_of_none (t : Thread) (h : detachedBy t.frames = none) :
 
 theorem haltedT_flags (t : Thread) :
     (haltedT t).halt = t.halt ∧ (haltedT t).armed = t.armed ∧ (haltedT t).id = t.id := by
-  rcases haltedT_cases t with h | h | ⟨w, k, fs, _, h⟩ <;> rw [h] <;> simp
+  rcases haltedT_cases t with h | h | ⟨_, h⟩
+  · rw [h]; simp
+  · rw [h]; simp
+  · rw [h]; exact leaveT_flags t none
 
 /-- every instruction polls: with the flag raised the step of running code IS `haltedT`
     (the only step without a poll is falling off the end of the main code) -/
@@ -48,22 +106,35 @@ theorem stepT_halted (c : Bool) (t : Thread) (p : Prog) (hh : t.halt = true) (hr
 
 theorem stepT_flags (c : Bool) (t : Thread) :
     (stepT c t).1.halt = t.halt ∧ (stepT c t).1.armed = t.armed ∧ (stepT c t).1.id = t.id := by
+  have hl := leaveT_flags t
+  have hf := haltedT_flags t
+  have hg := registerT_flags t
   obtain ⟨id, halt, armed, st, frames⟩ := t
   cases st with
   | fin e => simp [stepT]
-  | raising e =>
-    cases frames with
-    | nil => simp [stepT]
-    | cons f fs =>
-      obtain ⟨w, k⟩ := f
-      cases h : wrapErr w e <;> simp [stepT, h]
+  | raising e => simpa [stepT] using hl (some e)
+  | leaving => simpa [stepT] using hl none
   | blocked pr k =>
     cases c
     · simp [stepT]
     · cases h : primEffect pr <;> simp [stepT, h]
   | run p =>
-    have hf := haltedT_flags
-    cases p <;> cases halt <;> cases frames <;> simp [stepT, hf]
+    cases p with
+    | done =>
+      cases frames with
+      | nil => simp [stepT]
+      | cons f fs =>
+        cases halt
+        · simpa [stepT] using hl none
+        · simpa [stepT] using hf
+    | defer_ d k =>
+      cases halt
+      · simpa [stepT] using hg d k
+      · simpa [stepT] using hf
+    | _ =>
+      cases halt
+      · simp [stepT]
+      · simpa [stepT] using hf
 
 theorem stepT_halt (c : Bool) (t : Thread) : (stepT c t).1.halt = t.halt := (stepT_flags c t).1
 theorem stepT_armed (c : Bool) (t : Thread) : (stepT c t).1.armed = t.armed := (stepT_flags c t).2.1
@@ -80,34 +151,41 @@ theorem spin_fix (c : Bool) (t : Thread) (h : t.st = .run .spin) (hh : t.halt = 
   subst h hh
   simp [stepT]
 
-theorem size_pos (p : Prog) : 2 ≤ size p := by
-  induction p <;> simp only [size] <;> omega
-
 theorem afterPrim_size (pr : Prim) (k : Prog) : size (afterPrim pr k) ≤ 1 + size k := by
   cases pr <;> simp [afterPrim, size] <;> omega
 
 /-- whatever the halted branch does, what is left is at most one unwinding step plus the
-    enclosing frames -/
+    enclosing frames (their deferred closures included) -/
 theorem haltedT_pot (t : Thread) : potT (haltedT t) ≤ 1 + potFrames t.frames := by
-  rcases haltedT_cases t with h | h | ⟨w, k, fs, hf, h⟩
+  rcases haltedT_cases t with h | h | ⟨_, h⟩
   · rw [h]; simp [potT, potSt]
   · rw [h]; simp [potT, potSt]
-  · rw [h, hf]; simp [potT, potSt, potFrames]; omega
+  · rw [h]; have := leaveT_pot t none; omega
+
+theorem registerT_pot (t : Thread) (d k : Prog) :
+    potT (registerT t d k) < 6 + size d + size k + potFrames t.frames := by
+  unfold registerT
+  split
+  · rename_i h; simp [potT, potSt, h, potFrames]; omega
+  · rename_i w k0 ds fs h
+    simp [potT, potSt, h, potFrames, potDefers]; omega
 
 /-- Once the context has fired, every step of a thread that is neither finished nor in an
     unhalted compute loop strictly decreases its potential. -/
 theorem step_decr (t : Thread) (hf : t.st.isFin = false)
     (hs : ¬ (t.st = .run .spin ∧ t.halt = false)) :
     potT (stepT true t).1 < potT t := by
+  have hl := leaveT_pot t
+  have hg := registerT_pot t
   obtain ⟨id, halt, armed, st, frames⟩ := t
   cases st with
   | fin e => simp [St.isFin] at hf
   | raising e =>
-    cases frames with
-    | nil => simp [stepT, potT, potSt, potFrames]
-    | cons f fs =>
-      obtain ⟨w, k⟩ := f
-      cases h : wrapErr w e <;> simp [stepT, h, potT, potSt, potFrames] <;> omega
+    have := hl (some e)
+    simp only [stepT, potT, potSt] at this ⊢; omega
+  | leaving =>
+    have := hl none
+    simp only [stepT, potT, potSt] at this ⊢; omega
   | blocked pr k =>
     cases h : primEffect pr
     · have := afterPrim_size pr k
@@ -136,8 +214,10 @@ theorem step_decr (t : Thread) (hf : t.st.isFin = false)
         cases frames with
         | nil => simp [stepT, potT, potSt, potFrames, size]
         | cons f fs =>
-          obtain ⟨w, k⟩ := f
-          simp [stepT, potT, potSt, potFrames, size]; omega
+          have := hl none
+          simp only [stepT, potT, potSt, size] at this ⊢
+          simp only [Bool.false_eq_true, if_false]
+          omega
       | compute k =>
         have := size_pos k
         simp [stepT, potT, potSt, size]
@@ -148,10 +228,15 @@ theorem step_decr (t : Thread) (hf : t.st.isFin = false)
       | cb w body k =>
         have := size_pos k
         have := size_pos body
-        simp [stepT, potT, potSt, potFrames, size]; omega
+        simp [stepT, potT, potSt, potFrames, potDefers, size]; omega
       | spawn i body k =>
         have := size_pos k
         simp [stepT, potT, potSt, size]
+      | defer_ d k =>
+        have := hg d k
+        simp only [stepT, potT, potSt, size] at this ⊢
+        simp only [Bool.false_eq_true, if_false]
+        omega
 
 /-! ### own steps -/
 
@@ -443,61 +528,155 @@ theorem exec_local (cfg : Cfg) (i : Nat) (σ : List Label) : ∀ (s : Sys) (t : 
 
 /-! ### thread-level forms of the guards and what a step does to them -/
 
-/-- a predicate on programs holds of the continuation of every enclosing callback frame -/
-def allK (P : Prog → Bool) : List (Wrap × Prog) → Bool
+/-- a predicate on programs holds of what the state is about to execute -/
+def stP (P : Prog → Bool) : St → Bool
+  | .run p => P p
+  | .blocked _ k => P k
+  | _ => true
+
+/-- a predicate on programs holds of the continuation of every enclosing frame and of every
+    deferred closure a frame holds -/
+def allK (P : Prog → Bool) : List Frame → Bool
   | [] => true
-  | (_, k) :: fs => P k && allK P fs
+  | (_, k, ds) :: fs => P k && ds.all P && allK P fs
 
 /-- no enclosing callback frame is a `try` -/
-def noTry : List (Wrap × Prog) → Bool
+def noTry : List Frame → Bool
   | [] => true
-  | (w, _) :: fs => w != .try_ && noTry fs
+  | (w, _, _) :: fs => w != .try_ && noTry fs
 
-/-- a predicate that holds of the continuation of every enclosing frame holds of whatever a
-    halted poll leaves to execute -/
-theorem haltedT_allK (P : Prog → Bool) (t : Thread) (h : allK P t.frames = true) :
-    (match (haltedT t).st with
-      | .run p => P p
-      | .blocked _ k => P k
-      | _ => true) = true ∧ allK P (haltedT t).frames = true := by
-  rcases haltedT_cases t with e | e | ⟨w, k, fs, hf, e⟩
-  · rw [e]; exact ⟨rfl, h⟩
-  · rw [e]; exact ⟨rfl, h⟩
-  · rw [e]; rw [hf] at h; simp [allK] at h; exact ⟨h.1, h.2⟩
+/-- no enclosing frame holds a deferred closure, none is the frame of a deferred call -/
+def noDefersF : List Frame → Bool
+  | [] => true
+  | (w, _, ds) :: fs => ds.isEmpty && (match w with
+      | .dfr _ => false
+      | _ => true) && noDefersF fs
 
-/-- a halted step of running code: nothing is spawned, and a frame predicate is kept -/
-theorem stepT_halted_allK (P : Prog → Bool) (c : Bool) (t : Thread) (p : Prog) (hh : t.halt = true)
-    (hr : t.st = .run p) (h : allK P t.frames = true) :
-    ((match (stepT c t).1.st with
-      | .run p => P p
-      | .blocked _ k => P k
-      | _ => true) && allK P (stepT c t).1.frames) = true ∧ (stepT c t).2 = none := by
-  by_cases hp : p ≠ .done ∨ t.frames ≠ []
-  · rw [stepT_halted c t p hh hr hp]
-    have := haltedT_allK P t h
-    simp [this.1, this.2]
-  · have hp1 : p = .done := by
-      cases p <;> simp_all
-    have hp2 : t.frames = [] := by
-      cases hf : t.frames <;> simp_all
-    obtain ⟨id, halt, armed, st, frames⟩ := t
-    simp only at hh hr hp2
-    subst hh hr hp1 hp2
-    simp [stepT, allK]
+/-- everything the thread can still execute satisfies `P` -/
+def invP (P : Prog → Bool) (t : Thread) : Bool := stP P t.st && allK P t.frames
 
-/-- thread-level form of the guards: nothing the thread can still execute contains a loop -/
-def noSpinT (t : Thread) : Bool :=
-  (match t.st with
-    | .run p => noSpin p
-    | .blocked _ k => noSpin k
-    | _ => true) && allK noSpin t.frames
+/-- `P` is inherited by every part of a shape that can come to execution on the same thread -/
+structure SubClosed (P : Prog → Bool) : Prop where
+  done : P .done = true
+  compute : ∀ k, P (.compute k) = true → P k = true
+  block : ∀ pr k, P (.block pr k) = true → P k = true
+  after : ∀ pr k, P (afterPrim pr k) = P k
+  cb : ∀ w b k, P (.cb w b k) = true → P b = true ∧ P k = true
+  spawn : ∀ i b k, P (.spawn i b k) = true → P k = true
+  defer_ : ∀ d k, P (.defer_ d k) = true → P d = true ∧ P k = true
 
-/-- nothing the thread can still spawn contains a loop -/
-def noCloneSpinT (t : Thread) : Bool :=
-  (match t.st with
-    | .run p => noCloneSpin p
-    | .blocked _ k => noCloneSpin k
-    | _ => true) && allK noCloneSpin t.frames
+theorem returnT_invP (P : Prog → Bool) (t : Thread) (w : Wrap) (k : Prog) (fs : List Frame)
+    (o : Option Err) (hk : P k = true) (hfs : allK P fs = true) :
+    invP P (returnT t w k fs o) = true := by
+  unfold returnT
+  split
+  · split <;> simp [invP, stP, hfs]
+  · split
+    · simp [invP, stP, hk, hfs]
+    · split <;> simp [invP, stP, hk, hfs]
+
+/-- leaving a frame keeps a frame predicate: what comes to execution is a deferred closure
+    of the frame or the continuation of the caller -/
+theorem leaveT_invP (P : Prog → Bool) (hd : P .done = true) (t : Thread) (o : Option Err)
+    (h : allK P t.frames = true) : invP P (leaveT t o) = true := by
+  unfold leaveT
+  split
+  · rename_i hf; simp [invP, stP, hf, allK]
+  · rename_i w k d ds fs hf
+    rw [hf] at h
+    simp [allK] at h
+    simp [invP, stP, allK, hd, h]
+    exact h.1.2.2
+  · rename_i w k fs hf
+    rw [hf] at h
+    simp [allK] at h
+    exact returnT_invP P t w k fs o h.1 h.2
+
+theorem haltedT_invP (P : Prog → Bool) (hd : P .done = true) (t : Thread)
+    (h : allK P t.frames = true) : invP P (haltedT t) = true := by
+  rcases haltedT_cases t with e | e | ⟨_, e⟩
+  · rw [e]; simpa [invP, stP] using h
+  · rw [e]; simpa [invP, stP] using h
+  · rw [e]; exact leaveT_invP P hd t none h
+
+theorem registerT_invP (P : Prog → Bool) (t : Thread) (d k : Prog) (hd : P d = true) (hk : P k = true)
+    (h : allK P t.frames = true) : invP P (registerT t d k) = true := by
+  unfold registerT
+  split
+  · rename_i hf; simp [invP, stP, hk, hf, allK]
+  · rename_i w k0 ds fs hf
+    rw [hf] at h
+    simp [allK] at h
+    simp [invP, stP, allK, hk, hd, h]
+    exact h.1.2
+
+/-- what a step can spawn: only the body named by a `spawn` the thread was about to execute -/
+theorem stepT_spawned (c : Bool) (t : Thread) (b : Nat × Prog) (h : (stepT c t).2 = some b) :
+    ∃ k, t.st = .run (.spawn b.1 b.2 k) := by
+  obtain ⟨id, halt, armed, st, frames⟩ := t
+  cases st with
+  | fin e => simp [stepT] at h
+  | raising e => simp [stepT] at h
+  | leaving => simp [stepT] at h
+  | blocked pr k =>
+    cases c
+    · simp [stepT] at h
+    · cases hp : primEffect pr <;> simp [stepT, hp] at h
+  | run p =>
+    cases p with
+    | done => cases frames <;> cases halt <;> simp [stepT] at h
+    | spawn i body k =>
+      cases halt
+      · simp [stepT] at h; exact ⟨k, by rw [← h]⟩
+      · simp [stepT] at h
+    | _ => cases halt <;> simp [stepT] at h
+
+/-- a step keeps a sub-closed predicate on everything the thread can still execute -/
+theorem invP_step (P : Prog → Bool) (hP : SubClosed P) (c : Bool) (t : Thread)
+    (h : invP P t = true) : invP P (stepT c t).1 = true := by
+  have hfr : allK P t.frames = true := by
+    simp [invP] at h; exact h.2
+  have hl := leaveT_invP P hP.done t
+  have hh := haltedT_invP P hP.done t hfr
+  have hg := registerT_invP P t
+  obtain ⟨id, halt, armed, st, frames⟩ := t
+  cases st with
+  | fin e => simpa [stepT] using h
+  | raising e => exact hl (some e) hfr
+  | leaving => exact hl none hfr
+  | blocked pr k =>
+    simp [invP, stP] at h
+    cases c
+    · simp [stepT, invP, stP, h]
+    · cases hp : primEffect pr <;> simp [stepT, hp, invP, stP, h, hP.after]
+  | run p =>
+    simp [invP, stP] at h
+    cases halt with
+    | true =>
+      by_cases hp : p ≠ .done ∨ frames ≠ []
+      · rw [stepT_halted c _ p rfl rfl hp]; exact hh
+      · have hp1 : p = .done := by
+          cases p <;> simp_all
+        have hp2 : frames = [] := by
+          cases frames <;> simp_all
+        subst hp1 hp2
+        simp [stepT, invP, stP, allK]
+    | false =>
+      cases p with
+      | done =>
+        cases frames with
+        | nil => simp [stepT, invP, stP, allK]
+        | cons f fs => simpa [stepT] using hl none hfr
+      | spin => simpa [stepT, invP, stP] using h
+      | compute k => simp [stepT, invP, stP, hP.compute k h.1, h.2]
+      | block pr k => simp [stepT, invP, stP, hP.block pr k h.1, h.2]
+      | cb w body k =>
+        have := hP.cb w body k h.1
+        simp [stepT, invP, stP, allK, this, h.2]
+      | spawn i body k => simp [stepT, invP, stP, hP.spawn i body k h.1, h.2]
+      | defer_ d k =>
+        have := hP.defer_ d k h.1
+        simpa [stepT] using hg d k this.1 this.2 hfr
 
 theorem noSpin_afterPrim (pr : Prim) (k : Prog) : noSpin (afterPrim pr k) = noSpin k := by
   cases pr <;> simp [afterPrim, noSpin]
@@ -505,85 +684,57 @@ theorem noSpin_afterPrim (pr : Prim) (k : Prog) : noSpin (afterPrim pr k) = noSp
 theorem noCloneSpin_afterPrim (pr : Prim) (k : Prog) : noCloneSpin (afterPrim pr k) = noCloneSpin k := by
   cases pr <;> simp [afterPrim, noCloneSpin]
 
+theorem noDetached_afterPrim (pr : Prim) (k : Prog) : noDetached (afterPrim pr k) = noDetached k := by
+  cases pr <;> simp [afterPrim, noDetached]
+
+theorem subClosed_noSpin : SubClosed noSpin where
+  done := rfl
+  compute := fun k h => by simpa [noSpin] using h
+  block := fun pr k h => by simpa [noSpin] using h
+  after := noSpin_afterPrim
+  cb := fun w b k h => by simpa [noSpin] using h
+  spawn := fun i b k h => by simp [noSpin] at h; exact h.2
+  defer_ := fun d k h => by simpa [noSpin] using h
+
+theorem subClosed_noCloneSpin : SubClosed noCloneSpin where
+  done := rfl
+  compute := fun k h => by simpa [noCloneSpin] using h
+  block := fun pr k h => by simpa [noCloneSpin] using h
+  after := noCloneSpin_afterPrim
+  cb := fun w b k h => by simpa [noCloneSpin] using h
+  spawn := fun i b k h => by simp [noCloneSpin] at h; exact h.2
+  defer_ := fun d k h => by simpa [noCloneSpin] using h
+
+theorem subClosed_noDetached : SubClosed noDetached where
+  done := rfl
+  compute := fun k h => by simpa [noDetached] using h
+  block := fun pr k h => by simpa [noDetached] using h
+  after := noDetached_afterPrim
+  cb := fun w b k h => by
+    simp [noDetached] at h; exact ⟨h.1.2, h.2⟩
+  spawn := fun i b k h => by simpa [noDetached] using h
+  defer_ := fun d k h => by simpa [noDetached] using h
+
+/-- thread-level form of the guards: nothing the thread can still execute — the code it is
+    in, the continuations of its frames, the deferred closures they hold — contains a loop -/
+def noSpinT (t : Thread) : Bool := invP noSpin t
+
+/-- nothing the thread can still spawn contains a loop -/
+def noCloneSpinT (t : Thread) : Bool := invP noCloneSpin t
+
 theorem noSpinT_step (c : Bool) (t : Thread) (h : noSpinT t = true) :
     noSpinT (stepT c t).1 = true ∧ ∀ b, (stepT c t).2 = some b → noSpin b.2 = true := by
-  obtain ⟨id, halt, armed, st, frames⟩ := t
-  cases st with
-  | fin e => simpa [stepT] using h
-  | raising e =>
-    cases frames with
-    | nil => simp [stepT, noSpinT, allK]
-    | cons f fs =>
-      obtain ⟨w, k⟩ := f
-      simp [noSpinT, allK] at h
-      cases hw : wrapErr w e <;> simp [stepT, hw, noSpinT, allK, h]
-  | blocked pr k =>
-    simp [noSpinT, allK] at h
-    cases c
-    · simp [stepT, noSpinT, allK, h]
-    · cases hp : primEffect pr <;> simp [stepT, hp, noSpinT, allK, h, noSpin_afterPrim]
-  | run p =>
-    cases halt with
-    | true =>
-      have hk : allK noSpin frames = true := by
-        simp [noSpinT] at h; exact h.2
-      have := stepT_halted_allK noSpin c { id := id, halt := true, armed := armed, st := .run p, frames := frames } p rfl rfl hk
-      refine ⟨this.1, ?_⟩
-      rw [this.2]; simp
-    | false =>
-      cases p with
-      | done =>
-        cases frames with
-        | nil => simp [stepT, noSpinT, allK]
-        | cons f fs =>
-          obtain ⟨w, k⟩ := f
-          simp [noSpinT, noSpin, allK] at h
-          simp [stepT, noSpinT, allK, h]
-      | spin => simp [noSpinT, noSpin, allK] at h
-      | compute k => simp [noSpinT, noSpin, allK] at h; simp [stepT, noSpinT, allK, h]
-      | block pr k => simp [noSpinT, noSpin, allK] at h; simp [stepT, noSpinT, allK, h]
-      | cb w body k => simp [noSpinT, noSpin, allK] at h; simp [stepT, noSpinT, allK, h]
-      | spawn i body k => simp [noSpinT, noSpin, allK] at h; simp [stepT, noSpinT, allK, h]
+  refine ⟨invP_step noSpin subClosed_noSpin c t h, fun b hb => ?_⟩
+  obtain ⟨k, hk⟩ := stepT_spawned c t b hb
+  simp [noSpinT, invP, hk, stP, noSpin] at h
+  exact h.1.1
 
 theorem noCloneSpinT_step (c : Bool) (t : Thread) (h : noCloneSpinT t = true) :
     noCloneSpinT (stepT c t).1 = true ∧ ∀ b, (stepT c t).2 = some b → noSpin b.2 = true := by
-  obtain ⟨id, halt, armed, st, frames⟩ := t
-  cases st with
-  | fin e => simpa [stepT] using h
-  | raising e =>
-    cases frames with
-    | nil => simp [stepT, noCloneSpinT, allK]
-    | cons f fs =>
-      obtain ⟨w, k⟩ := f
-      simp [noCloneSpinT, allK] at h
-      cases hw : wrapErr w e <;> simp [stepT, hw, noCloneSpinT, allK, h]
-  | blocked pr k =>
-    simp [noCloneSpinT, allK] at h
-    cases c
-    · simp [stepT, noCloneSpinT, allK, h]
-    · cases hp : primEffect pr <;> simp [stepT, hp, noCloneSpinT, allK, h, noCloneSpin_afterPrim]
-  | run p =>
-    cases halt with
-    | true =>
-      have hk : allK noCloneSpin frames = true := by
-        simp [noCloneSpinT] at h; exact h.2
-      have := stepT_halted_allK noCloneSpin c { id := id, halt := true, armed := armed, st := .run p, frames := frames } p rfl rfl hk
-      refine ⟨this.1, ?_⟩
-      rw [this.2]; simp
-    | false =>
-      cases p with
-      | done =>
-        cases frames with
-        | nil => simp [stepT, noCloneSpinT, allK]
-        | cons f fs =>
-          obtain ⟨w, k⟩ := f
-          simp [noCloneSpinT, noCloneSpin, allK] at h
-          simp [stepT, noCloneSpinT, allK, h]
-      | spin => simpa [stepT, noCloneSpinT, noCloneSpin] using h
-      | compute k => simp [noCloneSpinT, noCloneSpin, allK] at h; simp [stepT, noCloneSpinT, allK, h]
-      | block pr k => simp [noCloneSpinT, noCloneSpin, allK] at h; simp [stepT, noCloneSpinT, allK, h]
-      | cb w body k => simp [noCloneSpinT, noCloneSpin, allK] at h; simp [stepT, noCloneSpinT, allK, h]
-      | spawn i body k => simp [noCloneSpinT, noCloneSpin, allK] at h; simp [stepT, noCloneSpinT, allK, h]
+  refine ⟨invP_step noCloneSpin subClosed_noCloneSpin c t h, fun b hb => ?_⟩
+  obtain ⟨k, hk⟩ := stepT_spawned c t b hb
+  simp [noCloneSpinT, invP, hk, stP, noCloneSpin] at h
+  exact h.1.1
 
 theorem noSpinT_fire (t : Thread) : noSpinT (fireT t) = noSpinT t := by
   unfold fireT; split <;> rfl
@@ -598,6 +749,7 @@ def ctxPath (t : Thread) : Bool :=
     | .run p => noLossy p
     | .blocked pr k => primEffect pr == some .ctx && noLossy k
     | .raising e => e == .ctx
+    | .leaving => false
     | .fin e => e == none || e == some .ctx)
 
 theorem ctxPath_step (c : Bool) (t : Thread) (h : ctxPath t = true) : ctxPath (stepT c t).1 = true := by
@@ -607,7 +759,8 @@ theorem ctxPath_step (c : Bool) (t : Thread) (h : ctxPath t = true) : ctxPath (s
   | nil =>
     cases st with
     | fin e => simpa [stepT] using h
-    | raising e => simp [ctxPath] at h; simp [stepT, ctxPath, h]
+    | raising e => simp [ctxPath] at h; simp [stepT, leaveT, ctxPath, h]
+    | leaving => simp [ctxPath] at h
     | blocked pr k =>
       simp [ctxPath] at h
       cases c
@@ -618,67 +771,102 @@ theorem ctxPath_step (c : Bool) (t : Thread) (h : ctxPath t = true) : ctxPath (s
 
 /-- thread-level form of `noDetached`: nothing the thread can still execute calls a host
     builtin with a detached callee context, and it is not inside such a callback now -/
-def noDetT (t : Thread) : Bool :=
-  (match t.st with
-    | .run p => noDetached p
-    | .blocked _ k => noDetached k
-    | _ => true) && allK noDetached t.frames && (detachedBy t.frames).isNone
+def noDetT (t : Thread) : Bool := invP noDetached t && (detachedBy t.frames).isNone
 
-theorem noDetached_afterPrim (pr : Prim) (k : Prog) : noDetached (afterPrim pr k) = noDetached k := by
-  cases pr <;> simp [afterPrim, noDetached]
+theorem detachedBy_tail (f : Frame) (fs : List Frame) (h : detachedBy (f :: fs) = none) :
+    detachedBy fs = none := by
+  obtain ⟨w, k, ds⟩ := f
+  cases w with
+  | host cc b => cases cc <;> simp [detachedBy] at h ⊢ <;> exact h
+  | _ => simpa [detachedBy] using h
+
+theorem detachedBy_defers (w : Wrap) (k k' : Prog) (ds ds' : List Prog) (fs : List Frame) :
+    detachedBy ((w, k, ds) :: fs) = detachedBy ((w, k', ds') :: fs) := by
+  cases w with
+  | host cc b => cases cc <;> simp [detachedBy]
+  | _ => simp [detachedBy]
+
+theorem returnT_frames (t : Thread) (w : Wrap) (k : Prog) (fs : List Frame) (o : Option Err) :
+    (returnT t w k fs o).frames = fs := by
+  unfold returnT
+  split
+  · split <;> rfl
+  · split
+    · rfl
+    · split <;> rfl
+
+/-- leaving a frame never puts the thread under a detached callee context it was not under -/
+theorem leaveT_detachedBy (t : Thread) (o : Option Err) (h : detachedBy t.frames = none) :
+    detachedBy (leaveT t o).frames = none := by
+  unfold leaveT
+  split
+  · exact h
+  · rename_i w k d ds fs hf
+    rw [hf] at h
+    show detachedBy ((.dfr o, .done, []) :: (w, k, ds) :: fs) = none
+    simp only [detachedBy]
+    rw [detachedBy_defers w k k ds (d :: ds) fs]; exact h
+  · rename_i w k fs hf
+    rw [hf] at h
+    rw [returnT_frames]; exact detachedBy_tail _ _ h
+
+theorem registerT_detachedBy (t : Thread) (d k : Prog) :
+    detachedBy (registerT t d k).frames = detachedBy t.frames := by
+  unfold registerT
+  split
+  · rfl
+  · rename_i w k0 ds fs hf
+    rw [hf]; exact detachedBy_defers w k0 k0 (d :: ds) ds fs
 
 theorem noDetT_step (c : Bool) (t : Thread) (h : noDetT t = true) : noDetT (stepT c t).1 = true := by
+  simp only [noDetT, Bool.and_eq_true, Option.isNone_iff_eq_none] at h ⊢
+  refine ⟨invP_step noDetached subClosed_noDetached c t h.1, ?_⟩
+  have hd := h.2
+  have hl := leaveT_detachedBy t
+  have hg := registerT_detachedBy t
+  have hi := h.1
   obtain ⟨id, halt, armed, st, frames⟩ := t
+  simp only at hd
   cases st with
-  | fin e => simpa [stepT] using h
-  | raising e =>
-    cases frames with
-    | nil => simp [stepT, noDetT, allK, detachedBy]
-    | cons f fs =>
-      obtain ⟨w, k⟩ := f
-      have h' : noDetached k = true ∧ allK noDetached fs = true ∧ detachedBy fs = none := by
-        cases w with
-        | host cc b => cases cc <;> simp [noDetT, allK, detachedBy] at h <;> simp [h]
-        | _ => simp [noDetT, allK, detachedBy] at h; simp [h]
-      cases hw : wrapErr w e <;> simp [stepT, hw, noDetT, h']
+  | fin e => simpa [stepT] using hd
+  | raising e => exact hl (some e) hd
+  | leaving => exact hl none hd
   | blocked pr k =>
-    simp [noDetT] at h
     cases c
-    · simp [stepT, noDetT, h]
-    · cases hp : primEffect pr <;> simp [stepT, hp, noDetT, h, noDetached_afterPrim]
+    · simpa [stepT] using hd
+    · cases hp : primEffect pr <;> simpa [stepT, hp] using hd
   | run p =>
     cases halt with
     | true =>
-      simp [noDetT] at h
       by_cases hp : p ≠ .done ∨ frames ≠ []
       · rw [stepT_halted c _ p rfl rfl hp]
-        show noDetT (haltedT _) = true
-        rw [haltedT_of_none _ (by simpa using h.2)]
-        simp [noDetT, h]
+        show detachedBy (haltedT _).frames = none
+        rw [haltedT_of_none _ hd]; exact hd
       · have hp1 : p = .done := by
           cases p <;> simp_all
         have hp2 : frames = [] := by
           cases frames <;> simp_all
         subst hp1 hp2
-        simp [stepT, noDetT, allK, detachedBy]
+        simp [stepT, detachedBy]
     | false =>
       cases p with
       | done =>
         cases frames with
-        | nil => simp [stepT, noDetT, allK, detachedBy]
-        | cons f fs =>
-          obtain ⟨w, k⟩ := f
-          cases w with
-          | host cc b => cases cc <;> simp [noDetT, noDetached, allK, detachedBy] at h <;> simp [stepT, noDetT, allK, h]
-          | _ => simp [noDetT, noDetached, allK, detachedBy] at h; simp [stepT, noDetT, allK, h]
-      | spin => simpa [stepT] using h
-      | compute k => simp [noDetT, noDetached] at h; simp [stepT, noDetT, h]
-      | block pr k => simp [noDetT, noDetached] at h; simp [stepT, noDetT, h]
-      | spawn i body k => simp [noDetT, noDetached] at h; simp [stepT, noDetT, h]
+        | nil => simp [stepT, detachedBy]
+        | cons f fs => simpa [stepT] using hl none hd
+      | spin => simpa [stepT] using hd
+      | compute k => simpa [stepT] using hd
+      | block pr k => simpa [stepT] using hd
+      | spawn i body k => simpa [stepT] using hd
+      | defer_ d k => simpa [stepT, hg d k] using hd
       | cb w body k =>
+        simp [invP, stP, noDetached] at hi
         cases w with
-        | host cc b => cases cc <;> simp [noDetT, noDetached] at h <;> simp [stepT, noDetT, allK, detachedBy, h]
-        | _ => simp [noDetT, noDetached] at h; simp [stepT, noDetT, allK, detachedBy, h]
+        | host cc b =>
+          cases cc
+          · simpa [stepT, detachedBy] using hd
+          · simp at hi
+        | _ => simpa [stepT, detachedBy] using hd
 
 theorem noDetT_fire (t : Thread) : noDetT (fireT t) = noDetT t := by
   unfold fireT; split <;> rfl
